@@ -61,6 +61,53 @@ def rand_tlvs(rng, budget, maxn=5):
     return out
 
 
+def special_v4(rng):
+    """IPv4 values a transformation of the address (canonicalisation, classification) treats specially."""
+    return rng.choice([
+        bytes(4), b"\xff" * 4, bytes([127, 0, 0, 1]), bytes([10, 0, 0, 1]), bytes([169, 254, 1, 1]),
+        bytes([224, 0, 0, 1]), bytes([192, 168, 0, 255]), bytes([0, 0, 0, 1]), bytes([1, 0, 0, 0]),
+        bytes([100, 64, 0, 1]), bytes([198, 18, 0, 1]), bytes([240, 0, 0, 1]),
+    ])
+
+
+def special_v6(rng):
+    """IPv6 values with structure: IPv4-mapped / -compatible / NAT64 / 6to4 / Teredo, scopes, zero runs."""
+    v4 = rand_bytes(rng, 4)
+    return rng.choice([
+        bytes(10) + b"\xff\xff" + v4,                 # ::ffff:a.b.c.d  (IPv4-mapped)
+        bytes(10) + b"\xff\xff" + special_v4(rng),
+        bytes(12) + v4,                                # ::a.b.c.d       (IPv4-compatible)
+        b"\x00\x64\xff\x9b" + bytes(8) + v4,          # 64:ff9b::a.b.c.d (NAT64)
+        b"\x20\x02" + v4 + bytes(10),                  # 6to4
+        b"\x20\x01\x00\x00" + rand_bytes(rng, 12),     # Teredo
+        bytes(16), bytes(15) + b"\x01", b"\xff" * 16,
+        b"\xfe\x80" + bytes(6) + rand_bytes(rng, 8),    # link-local
+        b"\xff\x02" + bytes(13) + b"\x01",             # multicast
+        b"\xfc\x00" + rand_bytes(rng, 14),             # unique local
+        b"\x20\x01\x0d\xb8" + bytes(11) + b"\x01",     # documentation, one long zero run
+        bytes(8) + b"\xff\xff" + bytes(2) + v4,        # ::ffff:0:a.b.c.d (not mapped)
+        bytes(9) + b"\x01\xff\xff" + v4,              # almost mapped
+        b"\x00\x01" + bytes(4) + b"\x00\x01" + bytes(8),  # two zero runs
+        bytes(2) + rand_bytes(rng, 14), rand_bytes(rng, 14) + bytes(2),
+    ])
+
+
+def special_unix(rng):
+    """One 108-byte socket path field: C-string-like shapes."""
+    name = bytes(rng.choice(b"/abcxyz._-019") for _ in range(rng.choice([1, 5, 20, 106, 107])))
+    junk = bytes(rng.randrange(1, 256) for _ in range(108))
+    return rng.choice([
+        (name + bytes(108))[:108],                     # path, zero padded
+        (name[:20] + b"\x00" + junk)[:108],             # path, NUL, then non-zero bytes
+        (b"\x00" + name + bytes(108))[:108],            # abstract name
+        (b"\x00" + junk)[:108],                         # abstract, no further NUL
+        junk,                                          # no NUL at all
+        junk[:107] + b"\x00",                           # NUL only in the last byte
+        bytes(108), bytes(107) + b"\x01", b"\x01" + bytes(107),
+        (b"a\x00b\x00c" + bytes(108))[:108],
+    ])
+
+
 def parse_oracle(x: bytes):
     """The wire format, straight from the protocol text (independent of the Lean model).
     Returns ('ok', dict) / ('inc', ...) / ('term', ...) ; only accept/decoded fields are specified
@@ -147,12 +194,14 @@ def gen_valid_headers(rng, n, max_payload=600, big_every=200):
         afp = rng.choice(VALID_AFP)
         size = FAM_SIZE[afp >> 4]
         ab = rand_bytes(rng, size)
-        if size == 36 and i % 7 == 0:
-            # IPv4-mapped / special IPv6 values
-            m = lambda: rng.choice([bytes(10) + b"\xff\xff" + rand_bytes(rng, 4), bytes(16), bytes(15) + b"\x01", b"\xff" * 16, bytes(12) + rand_bytes(rng, 4)])
+        if size == 36 and i % 3 == 0:
+            # IPv4-mapped / special IPv6 values, alone and paired
+            m = lambda: special_v6(rng) if rng.random() < 0.8 else rand_bytes(rng, 16)
             ab = m() + m() + rand_bytes(rng, 4)
-        elif size == 12 and i % 7 == 0:
-            ab = rng.choice([bytes(4), b"\xff" * 4, bytes([127, 0, 0, 1])]) + rng.choice([bytes(4), b"\xff" * 4]) + rng.choice([b"\x00\x00\xff\xff", b"\xff\xff\x00\x00"])
+        elif size == 12 and i % 3 == 0:
+            ab = special_v4(rng) + special_v4(rng) + rng.choice([b"\x00\x00\xff\xff", b"\xff\xff\x00\x00", rand_bytes(rng, 4)])
+        elif size == 216 and i % 2 == 0:
+            ab = special_unix(rng) + special_unix(rng)
         kind = rng.random()
         if i % big_every == big_every - 1:
             budget = 65535 - size
